@@ -28,7 +28,7 @@ RULE = ("random system bounds/zone x 1-5 proposals with distinct priorities bias
 REQUIRED_BUCKETS = ["pool-handle-tier(proposals as BatteryPool.propose_* builds them)", "conflict-free-set", "zone-present", "no-zone", "narrowed-by-higher-priority",
                     "probe-adopted", "probe-rejected", "probe-in-zone", "null-proposal-added", "two-candidates",
                     "update-prefers-the-previous-target", "second-component-set-evaluated-last",
-                    "same-source-id-at-two-priorities", "history:system-bounds-moved", "history:proposals-expired",
+                    "same-source-id-at-two-priorities", "bounds-strictly-inside-the-exclusion-zone-ignored", "history:system-bounds-moved", "history:proposals-expired",
                     "history:a-higher-priority-proposal-expired"]
 REQUIRED_COUNTERS = ["targets_vs_reference", "adoption_probes", "adjust_to_bounds_probes", "null_proposal_checks",
                      "update_steps_checked", "history_steps_checked"]
@@ -80,6 +80,12 @@ def check(case: dict[str, Any], rec: Any) -> None:
     zone = el != 0 or eu != 0
     sb = pm.mk_sysbounds(sys, excl)
     ref = pm.reference(props, sl, su, el, eu)
+    if ref is None:
+        # bounds that lie strictly inside the exclusion zone cannot be honoured by anybody and are ignored by design;
+        # a set that is conflict-free apart from such bounds is judged with them left out
+        ref = pm.reference(props, sl, su, el, eu, ignore_bounds_inside_zone=True)
+        if ref is not None:
+            rec.bucket("bounds-strictly-inside-the-exclusion-zone-ignored")
     if ref is None:
         rec.bucket("conflicting-set(skipped)")
         return
